@@ -77,6 +77,7 @@ type Obligation struct {
 	// discriminators of known findings (finding id -> SMT term over the entry state), shared per function
 	ExceptTerms map[string]string
 	Exec        *Exec
+	RetVals     []Val // post obligations: the values returned on this path
 }
 
 const topVar = "$top"
@@ -100,6 +101,7 @@ type Exec struct {
 	S *Script
 
 	heapSort map[string]string
+	heapGoTy map[string]types.Type // field heaps: Go type of the field (for quantified type invariants)
 	epochs   map[int]*epochDef
 	epochMem map[string]string
 	nextEp   int
@@ -121,6 +123,11 @@ type Exec struct {
 	boxDecl     map[string]bool
 	top         topFrame
 	exceptTerms map[string]string
+	curTop      *ssa.Function
+	boundK      int // > 0: bounded-instance mode for counter-model search (integer quantifiers expanded)
+	topArgs     []Val
+	tagTypes    []types.Type
+	mapKeyCands map[string][]string
 	topRets     []retInfo
 	allAllocs   map[string]bool
 }
@@ -133,9 +140,9 @@ type specFnInfo struct {
 }
 
 func newExec(p *Program, w *World) *Exec {
-	e := &Exec{P: p, W: w, S: newScript(), heapSort: map[string]string{}, epochs: map[int]*epochDef{}, epochMem: map[string]string{},
+	e := &Exec{P: p, W: w, S: newScript(), heapSort: map[string]string{}, heapGoTy: map[string]types.Type{}, epochs: map[int]*epochDef{}, epochMem: map[string]string{},
 		oblCount: map[string]int{}, Assumptions: map[string]bool{}, specFnDone: map[string]*specFnInfo{}, axiomsDone: map[string]bool{},
-		simplePure: map[*ssa.Function]int{}, boxDecl: map[string]bool{}, allAllocs: map[string]bool{}, exceptTerms: map[string]string{}}
+		simplePure: map[*ssa.Function]int{}, boxDecl: map[string]bool{}, allAllocs: map[string]bool{}, exceptTerms: map[string]string{}, mapKeyCands: map[string][]string{}}
 	e.heapSort[topVar] = "Int"
 	return e
 }
@@ -178,6 +185,7 @@ func (e *Exec) epochVal(ep int, name string) string {
 	var v string
 	if def == nil {
 		v = e.S.declare(key, sort)
+		e.heapInv(name, v)
 	} else {
 		var terms []string
 		same := true
@@ -213,7 +221,35 @@ func (e *Exec) setDef(st *State, name, term string) {
 func (e *Exec) havoc(st *State, name string) string {
 	n := e.S.declare(e.S.freshName(name), e.heapSort[name])
 	st.Vars[name] = n
+	e.heapInv(name, n)
 	return n
+}
+
+// heapInv: quantified type invariant of a freshly introduced (unconstrained) version of a field
+// heap: every object's field holds a well-typed Go value (slice header shape, one-of wrappers).
+// Assumed, never proved: it is what "well-typed Go heap" means in this memory model.
+func (e *Exec) heapInv(name, term string) {
+	gt, ok := e.heapGoTy[name]
+	if !ok {
+		return
+	}
+	ty := tyOfGo(gt)
+	if ty.K != KSlice && !(ty.K == KIface && e.sealedTags(gt) != nil) {
+		return
+	}
+	sel := app("select", term, "o")
+	var inv string
+	if ty.K == KSlice {
+		inv = and(app(">=", app("sl-len", sel), "0"), eq(app("sl-off", sel), "0"), app(">=", app("sl-base", sel), "0"),
+			implies(eq(app("sl-base", sel), "0"), eq(app("sl-len", sel), "0")))
+	} else {
+		alts := []string{eq(app("if-tag", sel), "0")}
+		for _, t := range e.sealedTags(gt) {
+			alts = append(alts, and(eq(app("if-tag", sel), smtInt(int64(e.S.tagOf(t)))), app(">", app("if-pay", sel), "0")))
+		}
+		inv = or(alts...)
+	}
+	e.S.assume(fmt.Sprintf("(forall ((o Int)) (! %s :pattern (%s)))", inv, sel))
 }
 
 // havocAll starts a fresh epoch: every heap (known or not yet referenced) becomes unknown.
